@@ -470,7 +470,9 @@ def main():
         rc, out, err, dt = sh("coqchk -o -silent -Q . Walleye Walleye.Properties.%s" % spec["file"][:-2], cwd=COQ, timeout=3000)
         good = rc == 0
         ax = re.findall(r"^\s+([A-Za-z_][\w.']*)\s*$", (out + err).split("Axioms:")[-1], re.M) if "Axioms:" in (out + err) else []
-        ax = [a for a in ax if a not in spec.get("axioms", ())]
+        # coqchk prints fully qualified names (Coq.Logic.Classical_Prop.classic); compare by suffix
+        allow = spec.get("axioms", ())
+        ax = [a for a in ax if not any(a == b or a.endswith("." + b) for b in allow)]
         good = good and not ax
         o.oblige("coqchk re-check of Properties/" + spec["file"], good, (out + err)[-300:])
         if not good:
